@@ -96,8 +96,11 @@ static std::vector<char> apply(const std::vector<char> &b, const Fault &f, const
     case 1: if (f.off < (long)c.size()) c[f.off] = (char)f.a; break;
     case 2: for (int k = 0; k < 4 && f.off + k < (long)c.size(); ++k) c[f.off + k] = (char)((f.a >> (8 * k)) & 0xFF); break;
     case 3: {
-      static const unsigned char pats[][6] = {{0xFF, 0xFF, 0xFF, 0xFF, 0x0F, 0}, {0x80, 0x80, 0x80, 0x80, 0x80, 0x80}, {0xFF, 0xFF, 0xFF, 0xFF, 0xFF, 0xFF}, {0x80, 0x80, 0x80, 0x80, 0x08, 0}, {0xFF, 0x7F, 0, 0, 0, 0}};
-      static const int lens[] = {5, 6, 6, 5, 2};
+      // 0: 2^32-1   1, 2: unterminated   3: 2^31   4: 16383   5: 2^64-1 (10 bytes)   6: 2^63   7: 2^64 - 2^46 (64-bit sizes: bit 63 set, low bits clear)
+      static const unsigned char pats[][10] = {{0xFF, 0xFF, 0xFF, 0xFF, 0x0F}, {0x80, 0x80, 0x80, 0x80, 0x80, 0x80}, {0xFF, 0xFF, 0xFF, 0xFF, 0xFF, 0xFF}, {0x80, 0x80, 0x80, 0x80, 0x08}, {0xFF, 0x7F},
+                                               {0xFF, 0xFF, 0xFF, 0xFF, 0xFF, 0xFF, 0xFF, 0xFF, 0xFF, 0x01}, {0x80, 0x80, 0x80, 0x80, 0x80, 0x80, 0x80, 0x80, 0x80, 0x01},
+                                               {0x80, 0x80, 0x80, 0x80, 0x80, 0x80, 0xC0, 0xFF, 0xFF, 0x01}};
+      static const int lens[] = {5, 6, 6, 5, 2, 10, 10, 10};
       for (int k = 0; k < lens[f.a] && f.off + k < (long)c.size(); ++k) c[f.off + k] = (char)pats[f.a][k];
       break;
     }
@@ -124,10 +127,10 @@ static std::vector<Fault> enumerate(const std::vector<char> &b, int level, uint6
     const unsigned char v = (unsigned char)b[o];
     for (int val : {0x00, 0xFF, (v + 1) & 0xFF, (v - 1) & 0xFF, v ^ 0x80, v ^ 0x01}) if (val != v) fs.push_back({1, o, val, 0});
     if (level >= 1 || o % 2 == 0) for (long long w : {0ll, 0x7FFFFFFFll, 0xFFFFFFFFll, 0x80000000ll}) fs.push_back({2, o, w, 0});
-    for (int p = 0; p < 5; ++p) if (level >= 1 || (o + p) % 3 == 0) fs.push_back({3, o, p, 0});
+    for (int p = 0; p < 8; ++p) if (level >= 1 || (o + p) % 3 == 0 || (p >= 5 && o < 64)) fs.push_back({3, o, p, 0});
   }
   // the first 40 bytes hold the header, the counts and the first tables: always at step 1
-  if (step > 1) for (long o = 0; o < std::min<long>(L, 40); ++o) { for (int val : {0x00, 0xFF, 0x7F, 0x80}) fs.push_back({1, o, val, 0}); fs.push_back({3, o, 0, 0}); fs.push_back({2, o, 0xFFFFFFFFll, 0}); }
+  if (step > 1) for (long o = 0; o < std::min<long>(L, 40); ++o) { for (int val : {0x00, 0xFF, 0x7F, 0x80}) fs.push_back({1, o, val, 0}); for (int p : {0, 5, 6, 7}) fs.push_back({3, o, p, 0}); fs.push_back({2, o, 0xFFFFFFFFll, 0}); }
   for (int maj = 0; maj <= 3; ++maj) for (int mn = 0; mn <= 5; ++mn) fs.push_back({4, 0, maj, mn});
   for (long o = 7; o <= 10 && o < L; ++o) for (int val = 0; val < 6; ++val) fs.push_back({5, o, val, 0});
   const int nmulti = level >= 2 ? 400 : (level == 1 ? 60 : 12);
